@@ -5,3 +5,5 @@ pub mod refs;
 pub mod refscale;
 pub mod regspace;
 pub mod valuetree;
+#[cfg(feature = "schema")]
+pub mod schemadump;
